@@ -101,11 +101,13 @@ func genC12(e *emitter, tier string, seed int64) {
 		emitSimple(e, call+obs, mkpt("x"), "default_time", call)
 	}
 	// ---- datetime ----
-	for _, sub := range []string{"n", "k", "fl", "nosuch", "message", "v", "txt", "b1", "hx"} {
+	for _, sub := range []string{"n", "k", "fl", "nosuch", "message", "v", "txt", "b1", "hx", "bigms", "negms", "bigs"} {
 		for _, prec := range []string{"s", "ms", "us", ""} {
 			for _, f := range []string{"RFC3339", "ANSIC", "Kitchen", "nosuchfmt", "RFC3339Nano"} {
 				pt := mkpt("1610358231")
-				pt.Fields = append(pt.Fields, fieldSpec{"k", "int", "1610358231887"}, fieldSpec{"txt", "str", "hello"}, fieldSpec{"b1", "bool", "true"}, fieldSpec{"hx", "str", " 12"})
+				pt.Fields = append(pt.Fields, fieldSpec{"k", "int", "1610358231887"}, fieldSpec{"txt", "str", "hello"}, fieldSpec{"b1", "bool", "true"}, fieldSpec{"hx", "str", " 12"},
+					// (stamps whose nanosecond count leaves int64: after 2262, before 1677, the year 10000 in seconds)
+					fieldSpec{"bigms", "int", "9223372036855"}, fieldSpec{"negms", "int", "-9223372036855"}, fieldSpec{"bigs", "int", "253402300800"})
 				call := fmt.Sprintf("v = 1610358231\ndatetime(%s, \"%s\", \"%s\")", sub, prec, f)
 				emitSimple(e, call+obs, pt, "datetime", call)
 			}
@@ -126,6 +128,25 @@ func genC12(e *emitter, tier string, seed int64) {
 				emitSimple(e, call+"\np(get_key(out.x))"+obs, pt, "xml", d+" | "+call)
 			}
 		}
+	}
+	// ---- the same builtin applied twice in one run to a subject whose text changed in between (a
+	// reassigned variable, a loop variable, a rewritten, dropped or no longer well-formed field, a
+	// variable that comes to shadow the field): each call works on the subject as it is then ----
+	for i, src := range []string{
+		"d = \"<a>one</a>\"\nxml(d, \"/a\", a)\nd = \"<a>two</a>\"\nxml(d, \"/a\", b)",
+		"for d in [\"<a>1</a>\", \"<a>2</a>\", \"<a>3</a>\"] {\n  xml(d, \"/a\", c)\n}",
+		"xml(_, \"/r/v\", a)\nadd_key(message, \"<r><v>2</v></r>\")\nxml(_, \"/r/v\", b)",
+		"xml(_, \"/r/v\", a)\ndrop_key(message)\nxml(_, \"/r/v\", b)",
+		"xml(_, \"/r/v\", a)\nadd_key(message, \"<r\")\nxml(_, \"/r/v\", b)",
+		"xml(message, \"/r/v\", a)\nmessage = \"<r><v>9</v></r>\"\nxml(message, \"/r/v\", b)",
+		"xml(_, \"/r/v\", a)\nxml(_, \"/r/v\", b)\nrename(m2, message)\nxml(m2, \"/r/v\", c)\nxml(_, \"/r/v\", out)",
+		"q = \"select 1 from t\"\nsql_cover(q)\nadd_key(a, q)\nq = \"select 'x' from u where k = 5\"\nsql_cover(q)\nadd_key(b, q)",
+		"g = \"12 abc\"\nr1 = grok(g, \"%{NUMBER:a:int} %{WORD:b}\")\ng = \"77 zz\"\nr2 = grok(g, \"%{NUMBER:a:int} %{WORD:b}\")\np(r1, r2)",
+		"for g in [\"1 a\", \"x\", \"3 c\"] {\n  r = grok(g, \"%{NUMBER:a:int} %{WORD:b}\")\n  p(r, get_key(a), get_key(b))\n}",
+		"t = \"2021-01-11T17:43:51.887+0800\"\ndefault_time(t)\np(get_key(a))\nadd_key(t2, \"2022-02-02T02:02:02Z\")\ndefault_time(t2)",
+		"v = 1610358231\ndatetime(v, \"s\", \"RFC3339\")\nadd_key(a, v)\nv = 1710358231\ndatetime(v, \"s\", \"RFC3339\")\nadd_key(b, v)",
+	} {
+		emitSimple(e, src+obs, mkpt("<r><v>1</v></r>"), "changed-subject", fmt.Sprintf("changed-subject-%d", i))
 	}
 	// ---- sql_cover ----
 	for _, q := range []string{"select abc from def where x > 3 and y < 5", "SELECT * FROM t WHERE id IN (1, 2, 3) AND name = 'bob'", "not sql at all ((", "", "INSERT INTO t VALUES (1, 'a')"} {
